@@ -2,7 +2,12 @@ package c18
 
 import (
 	"context"
+	"errors"
 	"fmt"
+	"runtime"
+	"sort"
+	"strings"
+	"sync"
 	"sync/atomic"
 	"time"
 
@@ -15,10 +20,11 @@ import (
 // fakeIndex implements rebalancing.BTreeV2. It is itself free of shared mutable state other than atomics, so
 // every race reported in a smart program lies in the library.
 type fakeIndex struct {
-	size    uint64
-	calls   atomic.Int64 // mode-transition calls made by the rebalancer (from its background goroutine or Stop)
-	bgOn    atomic.Int32
-	maxBgOn atomic.Int32
+	size        uint64
+	calls       atomic.Int64 // mode-transition calls made by the rebalancer (from its background goroutine or Stop)
+	bgOn        atomic.Int32
+	maxBgOn     atomic.Int32
+	refuseStops atomic.Int32 // number of stop requests coming from mode transitions that are still to be refused
 }
 
 func (f *fakeIndex) EnableLazyRebalancing(structures.LazyRebalancingConfig) error {
@@ -41,8 +47,35 @@ func (f *fakeIndex) StartBackgroundRebalancing(context.Context) error {
 	}
 	return nil
 }
-func (f *fakeIndex) StopBackgroundRebalancing() error { f.calls.Add(1); f.bgOn.Add(-1); return nil }
-func (f *fakeIndex) GetFileSize() uint64              { return f.size }
+func (f *fakeIndex) StopBackgroundRebalancing() error {
+	f.calls.Add(1)
+	if f.refuseStops.Load() > 0 && calledFrom("applyDecision") && f.bgOn.Load() > 0 {
+		// a stop request issued by a mode transition is refused now and then (the worker is busy): the transition must not
+		// be taken as done, or the worker stays behind under a mode that no longer knows about it
+		if f.refuseStops.Add(-1) >= 0 {
+			return errors.New("background worker busy, try again")
+		}
+	}
+	f.bgOn.Add(-1)
+	return nil
+}
+
+// calledFrom reports whether a function whose name contains fn is on the caller's stack.
+func calledFrom(fn string) bool {
+	pc := make([]uintptr, 16)
+	n := runtime.Callers(3, pc)
+	frames := runtime.CallersFrames(pc[:n])
+	for {
+		fr, more := frames.Next()
+		if strings.Contains(fr.Function, fn) {
+			return true
+		}
+		if !more {
+			return false
+		}
+	}
+}
+func (f *fakeIndex) GetFileSize() uint64 { return f.size }
 
 // rotating is a selection strategy without shared mutable state other than an atomic counter: it proposes a different mode
 // at every evaluation, with full confidence, so that mode transitions (and with them starts and stops of background
@@ -66,6 +99,46 @@ func (r *rotating) Select(rebalancing.WorkloadFeatures, rebalancing.WorkloadType
 	return d
 }
 
+// selectorRace: fresh selectors with a stability period longer than the program; a few goroutines, released together, each
+// ask once for a different mode. Whatever the interleaving, one proposal is accepted first and every other call is told to
+// keep it: all calls return the same mode (as they do in either sequential order).
+func (w *worker) selectorRace(cons rebalancing.SafetyConstraints) {
+	modes := []rebalancing.Mode{rebalancing.ModeLazy, rebalancing.ModeIncremental, rebalancing.ModeNone}
+	for trial := 0; trial < 300; trial++ {
+		// the proposals differ through a strategy that hands out the modes in turn
+		sel := rebalancing.NewConfigSelector(rebalancing.WithSafetyConstraints(cons), rebalancing.WithStrategy(&turns{modes: modes}))
+		var start, done sync.WaitGroup
+		start.Add(1)
+		got := make([]rebalancing.Mode, len(modes))
+		for g := range modes {
+			done.Add(1)
+			go func(g int) {
+				defer done.Done()
+				start.Wait()
+				got[g] = sel.SelectConfig(rebalancing.WorkloadFeatures{}, rebalancing.WorkloadUnknown).Mode
+			}(g)
+		}
+		start.Done()
+		done.Wait()
+		for g := 1; g < len(got); g++ {
+			if got[g] != got[0] {
+				w.invariant("selector with a %v stability period: concurrent first decisions returned different modes %v (trial %d)", cons.MinStabilityPeriod, got, trial)
+				return
+			}
+		}
+	}
+}
+
+// turns hands out its modes in turn (atomic counter): concurrent calls get different proposals.
+type turns struct {
+	modes []rebalancing.Mode
+	n     atomic.Int64
+}
+
+func (t *turns) Select(rebalancing.WorkloadFeatures, rebalancing.WorkloadType) rebalancing.Decision {
+	return rebalancing.Decision{Mode: t.modes[int(t.n.Add(1))%len(t.modes)], Confidence: 1, Reason: "turns"}
+}
+
 func (w *worker) runSmart() {
 	n := len(w.c.Threads)
 	reps := w.c.Reps
@@ -85,9 +158,17 @@ func (w *worker) runSmart() {
 		w.tr.resetWindows()
 		baseline := goroutineBaseline()
 		idx := &fakeIndex{size: uint64(w.c.FileMB) << 20}
+		if w.c.Rotate {
+			idx.refuseStops.Store(int32(w.c.MinConf % 4)) // 0..3 refusals, a pure function of the case (MinConf is unused with Rotate)
+		}
+		var modesMu sync.Mutex
+		evalModes := map[rebalancing.Mode]bool{}
 		det := rebalancing.NewWorkloadDetector(rebalancing.WithMinSampleSize(5), rebalancing.WithWindowSize(time.Minute))
 		cons := rebalancing.DefaultSafetyConstraints()
 		cons.MinConfidence = float64(w.c.MinConf) / 100
+		if w.c.Rotate {
+			cons.MinConfidence = 0 // MinConf carries the number of refused transition stops in rotating programs
+		}
 		cons.MinStabilityPeriod = time.Duration(w.c.StableUS) * time.Microsecond
 		selOpts := []rebalancing.SelectorOption{rebalancing.WithSafetyConstraints(cons)}
 		if w.c.Rotate {
@@ -95,6 +176,9 @@ func (w *worker) runSmart() {
 		}
 		sel := rebalancing.NewConfigSelector(selOpts...)
 		sr := rebalancing.NewSmartRebalancer(idx, rebalancing.WithDetector(det), rebalancing.WithSelector(sel), rebalancing.WithReevalInterval(iv))
+		if w.c.Rotate && w.c.StableUS >= 10_000_000 {
+			w.selectorRace(cons)
+		}
 		var recs, evals, starts atomic.Int64
 		soleDriver := true // start/stop only in thread 0, no Evaluate from user threads
 		for ti, th := range w.c.Threads {
@@ -133,6 +217,11 @@ func (w *worker) runSmart() {
 							case "eval":
 								d, err := sr.Evaluate()
 								evals.Add(1)
+								if err == nil {
+									modesMu.Lock()
+									evalModes[d.Mode] = true
+									modesMu.Unlock()
+								}
 								if err == nil && (d.Confidence < 0 || d.Confidence > 1) {
 									w.invariant("Evaluate: confidence %v outside [0,1]", d.Confidence)
 								}
@@ -204,6 +293,16 @@ func (w *worker) runSmart() {
 		m := sr.GetMetrics()
 		if st.Started {
 			w.invariant("rep %d: rebalancer reports Started after Stop returned", rep)
+		}
+		if w.c.StableUS >= 10_000_000 && len(evalModes) > 1 {
+			// the stability period outlasts the program: once a mode has been accepted every later decision keeps it, in any
+			// interleaving of the evaluations
+			var ms []string
+			for m := range evalModes {
+				ms = append(ms, string(m))
+			}
+			sort.Strings(ms)
+			w.invariant("rep %d: evaluations returned the modes %v although the stability period (%d us) is longer than the whole program", rep, ms, w.c.StableUS)
 		}
 		if n := idx.bgOn.Load(); n > 0 { // redundant stops are harmless, an unmatched start is not
 			w.invariant("rep %d: after the last Stop returned, background rebalancing of the index was started %d time(s) more than it was stopped", rep, n)
